@@ -16,7 +16,7 @@ def prepare_crate(pid, spec, gen_root):
     extracted verbatim from /repo (plus contract attributes given in the spec, inserted in front of the item)."""
     name = spec['crate']
     src = os.path.join(KANI_SRC, name)
-    dst = os.path.join(gen_root, 'kani_' + name)
+    dst = os.path.join(gen_root, 'kani_' + name + ('_' + spec['tag'] if spec.get('tag') else ''))
     if os.path.exists(dst):
         # keep the target directory (build cache) but refresh sources
         for sub in ('src', 'Cargo.toml', '.cargo', 'Cargo.lock'):
@@ -75,3 +75,18 @@ def run_harness(crate_dir, harness, timeout=1500, extra=None):
     return dict(cmd=' '.join(cmd), rc=rc, out=out, wall=wall, timed_out=timed_out, failed=failed, total=total,
                 success=success, verdict_failed=verdict_failed, failed_checks=failed_checks,
                 solver_s=float(vt.group(1)) if vt else None, harness=harness)
+
+
+def concrete_values(crate_dir, harness, extra=None, timeout=1800):
+    """re-run a failing harness with concrete playback and return the counterexample as a list of integers
+    (one per kani::any() call, little endian)"""
+    r = run_harness(crate_dir, harness, timeout=timeout,
+                    extra=(extra or []) + ['-Z', 'concrete-playback', '--concrete-playback=print'])
+    m = re.search(r'let concrete_vals: Vec<Vec<u8>> = vec!\[(.*?)\];', r['out'], re.S)
+    if not m:
+        return None
+    vals = []
+    for mm in re.finditer(r'vec!\[([0-9, ]*)\]', m.group(1)):
+        bs = [int(x) for x in mm.group(1).split(',') if x.strip()]
+        vals.append(int.from_bytes(bytes(bs), 'little'))
+    return vals
